@@ -135,7 +135,7 @@ Section Live.
   Proof.
     induction ops as [|o r IH]; intros vl bl Hok; cbn [run_body].
     - apply t_ret. intros w (Hs & Hc & H). split; [auto|]. split; [auto|]. eauto.
-    - destruct o as [d k|]; cbn [oracle_ok] in Hok.
+    - destruct o as [d k| |]; cbn [oracle_ok] in Hok; [| |discriminate].
       + apply andb_true_iff in Hok as [Hk Hr]. apply andb_true_iff in Hk as [Hk1 Hk2].
         eapply t_bind; [|intros ?; cbv beta; apply (IH _ _ Hr)].
         apply prim_prog. intros um s f (p & buf & Hf & Hp & Hd & Hv & Hb). subst f. cbn [sem].
